@@ -861,19 +861,69 @@ def _r5(ctx, pkg):
     for solver, dev, m in sorted(methods):
         if solver == "cvode":
             ctx.check(m in branches, "R5", f"cvode method {m}", (INIT, ih.lineno), f"the cvode templates have a `general.method == \"{m}\"` branch", found=str(sorted(branches)))
+    _r5_example(ctx, pkg, table, {m for _, _, m in methods})
+
+
+def _fstr_option_locals(fn):
+    """{option: expression} interpolated right after `--<option>=` in an f-string of the function (`f"--solver={solver}"`)"""
+    out = {}
+    for js in ast.walk(fn):
+        if isinstance(js, ast.JoinedStr):
+            for a, b in zip(js.values, js.values[1:]):
+                if isinstance(a, ast.Constant) and isinstance(a.value, str) and isinstance(b, ast.FormattedValue):
+                    m = re.search(r"--([a-z][a-z\-]+)='?$", a.value)
+                    if m:
+                        out.setdefault(m.group(1), b.value)
+    return out
+
+
+def _r5_example(ctx, pkg, table, allm):
+    """The cases the example command offers, and the (solver, device, method) triple it composes for each, by VALUE (sa.consteval):
+    whatever the case list is spelled as (a literal list, a comprehension over a class-level table, ...) and however solver / device /
+    method are derived from the chosen case, every case must end in a method of init.py's table and yield a combination the table allows."""
+    from ..consteval import fold, run, NotConstant, class_attr_resolver
     eh = pkg.method("ExampleCommand", "handle")
+    attr = class_attr_resolver(pkg, "ExampleCommand")
+    # by role: the list handed to self.choice(<question>, <list>, ..) -- the same local that `--select` indexes
+    lst = next((c.args[1] for c in ast.walk(eh) if isinstance(c, ast.Call) and isinstance(c.func, ast.Attribute) and c.func.attr == "choice" and len(c.args) >= 2), None)
+    casevar = next((n.targets[0].id for n in ast.walk(eh) if isinstance(n, ast.Assign) and isinstance(n.targets[0], ast.Name) and isinstance(n.value, ast.Call)
+                    and isinstance(n.value.func, ast.Attribute) and n.value.func.attr == "choice"), None)
     cases = None
-    for n in ast.walk(eh):
-        if isinstance(n, ast.Assign) and isinstance(n.targets[0], ast.Name) and isinstance(n.value, (ast.List, ast.Tuple)) and n.value.elts and \
-                all(isinstance(e, ast.Constant) and isinstance(e.value, str) and "/" in e.value for e in n.value.elts):
-            cases = ast.literal_eval(n.value)
-    allm = {m for _, _, m in methods}
-    for c in sorted({x.split("/")[-1] for x in (cases or [])}):
+    if lst is not None:
+        try:
+            env0 = run(eh.body, {}, attr)
+            cases = fold(lst, env0, attr)
+        except NotConstant as ex:
+            ctx.unrec("R5", "example cases", (EXAMPLE, eh.lineno), f"the list of example cases is not a constant this rule can compute: {ex}")
+            return
+    if not isinstance(cases, (list, tuple)) or not all(isinstance(c, str) and "/" in c for c in cases) or casevar is None:
+        ctx.missing("R5", "example cases", (EXAMPLE, eh.lineno), "the list of `example/method` cases offered by self.choice(..) was not found")
+        return
+    for c in sorted({x.split("/")[-1] for x in cases}):
         ctx.check(c in allm, "R5", f"example case suffix {c}", (EXAMPLE, eh.lineno), f"`{c}` is a method of init.py's table")
-    ctx.floor("R5", "example cases", len(cases or []), 20)
-    src = ast.unparse(eh)
-    ctx.check(re.search(r"\w+ = 'odeint' if 'rosenbrock4' in \w+ else 'cvode'", src) is not None and re.search(r"\w+ = 'gpu' if 'cusparse' in \w+ else 'cpu'", src) is not None, "R5", "example solver/device derivation", (EXAMPLE, eh.lineno),
-              "solver and device are derived from the method suffix consistently with the table")
+    ctx.floor("R5", "example cases", len(cases), 20)
+    opts = _fstr_option_locals(eh)
+    if not all(k in opts for k in ("solver", "device", "method")):
+        ctx.unrec("R5", "example solver/device derivation", (EXAMPLE, eh.lineno), "the --solver= / --device= / --method= pieces of the composed command line were not found")
+        return
+    # the statements after the case was chosen, at the top level of handle()
+    start = next((i for i, st in enumerate(eh.body) if any(isinstance(x, ast.Name) and x.id == casevar and isinstance(x.ctx, ast.Store) for x in ast.walk(st))), 0)
+    bad, unknown = [], []
+    for c in cases:
+        env = run(eh.body[start + 1:], {casevar: c}, attr)
+        try:
+            sv, dv, mv = (fold(opts[k], env, attr) for k in ("solver", "device", "method"))
+        except NotConstant as ex:
+            unknown.append(f"{c}: {ex}")
+            continue
+        if mv not in (table.get(sv, {}) or {}).get(dv, []):
+            bad.append(f"{c} -> --solver={sv} --device={dv} --method={mv}")
+    if unknown:
+        ctx.unrec("R5", "example solver/device derivation", (EXAMPLE, eh.lineno), f"cannot compute the composed solver/device/method for {unknown[0]}")
+    else:
+        ctx.check(not bad, "R5", "example solver/device derivation", (EXAMPLE, eh.lineno),
+                  "solver and device are derived from the method suffix consistently with the table: every case composes a (solver, device, method) combination init.py allows",
+                  expected="a combination of init.py's solver/method table for every case", found="; ".join(bad[:4]))
 
 
 def _r8(ctx, pkg):
